@@ -64,8 +64,9 @@ class Signal(object):
 
     def reset_values(self, new_values):
         self.clear_cache()
-        self._values = np.array(new_values)
+        new_values = np.array(new_values)
         self._npts = len(new_values)
+        self._values = new_values
 
     @property
     def dt(self):
